@@ -15,6 +15,7 @@ pub mod c09;
 pub mod c11;
 pub mod c12;
 pub mod c13;
+pub mod c14;
 pub mod c15;
 pub mod c16;
 pub mod c17;
@@ -38,6 +39,7 @@ pub const TABLE: &[(&str, RunFn, ReplayFn)] = &[
     ("C11", c11::run, c11::replay),
     ("C12", c12::run, c12::replay),
     ("C13", c13::run, c13::replay),
+    ("C14", c14::run, c14::replay),
     ("C15", c15::run, c15::replay),
     ("C16", c16::run, c16::replay),
     ("C17", c17::run, c17::replay),
